@@ -12,7 +12,7 @@ RULE = ("bin tables of 1..6 chromosomes (incl. X/Y) x 1..400 bins, optional cent
         "null-coverage bins at the edges and inside, duplicate / Antitarget / '-' names; methods none, haar, hmm, "
         "hmm-tumor, hmm-germline x skip_low x skip_outliers {0,10} x min_weight {0,0.3} x processes {1,2,3,16}; "
         "the real do_segmentation output is checked by the Lean tile checker and compared with the Lean model of the "
-        "glue run on the partition read off the reported probes; about one case in six goes through the command line "
+        "glue run on the partition read off the reported probes; one case in seven goes through the command line "
         "(`cnvkit.py segment` on a written .cnr: -m METHOD, --drop-low-coverage present/absent, --drop-outliers {absent = 10, 0, 3, 10}, "
         "-p {absent = 1, N, bare = all CPUs}, -t {absent, FDR for haar, smoothing window for the HMMs}; the table handed to the "
         ".cns writer is judged like an API result, the written .cns must read back equal to it, and the same call through the "
@@ -83,7 +83,7 @@ def gen_cases(rng, tier):
                       "in": {"bins": rows, "method": method, "skip_low": rng.random() < 0.6,
                              "skip_outliers": rng.choice([0, 10, 10, 3]), "min_weight": rng.choice([0, 0, 0.3]),
                              "processes": rng.choice([1, 1, 2, 3, 16])}})
-    # one case in six goes through `cnvkit.py segment` (a separate random stream: the API cases above are unchanged)
+    # n//6 extra cases (one in seven) go through `cnvkit.py segment` (a separate random stream: the API cases above are unchanged)
     crng = random.Random()
     crng.setstate(rng.getstate())
     for k in range(max(5, n // 6)):
